@@ -58,6 +58,15 @@ def shapes_for(op, version, rng, reasons, quick):
     out.append(('request-failure', True, [Item(RS.OPERATION_FAILED, rng.choice([RR.INVALID_MESSAGE, RR.AUTHENTICATION_NOT_SUCCESSFUL,
                                                                                RR.RESPONSE_TOO_LARGE, RR.GENERAL_FAILURE]), msg, op=None)]))
     out.append(('request-failure-without-message', True, [Item(RS.OPERATION_FAILED, RR.INVALID_MESSAGE, None, op=None)]))
+    # a server that refuses at header level answers in ITS version (PyKMIP's own session: 1.0): the Response Header announces
+    # a protocol version different from the client's
+    others = [D.VER_TUPLE[x] for x in D.VERSIONS if x != version]
+    hvs = others if not quick else ([(1, 0)] if version != KV.KMIP_1_0 else [(1, 2), (2, 0)]) + [rng.choice(others)]
+    for hv in hvs:
+        out.append(('request-failure-header-%d.%d' % hv, True,
+                    [Item(RS.OPERATION_FAILED, rng.choice([RR.INVALID_MESSAGE, RR.AUTHENTICATION_NOT_SUCCESSFUL, RR.GENERAL_FAILURE]),
+                          D.gen_text(rng, 1, 30), op=None, hv=hv)]))
+    out.append(('failure-header-other-version', False, [Item(RS.OPERATION_FAILED, r0, msg, hv=rng.choice(others))]))
     # decodable but not legal answers to this client: the model must still agree, the oracle only forbids "success"
     out.append(('pending', False, [Item(RS.OPERATION_PENDING, r0, msg)]))
     out.append(('undone', False, [Item(RS.OPERATION_UNDONE, r0, msg)]))
@@ -263,9 +272,14 @@ def pie_cases(ctx, quick):
                     oracle(ctx, op, version, 'mangled-' + mlabel, False, abstract, None, out,
                            witness={'response_hex': resp.response_bytes.hex()})
                     sok, swhy = strictly_decodable(resp.response_bytes)
-                    if not sok and out[0] == 'return' and ' bytes, ' in swhy and 'left' in swhy:
-                        # A flipped LENGTH field makes the last structure claim more bytes than the message holds; PyKMIP's
-                        # BytearrayStream.read hands over what is there and the decode goes through with every value intact.
+                    overrun = ' bytes, ' in swhy and 'left' in swhy         # agreed with the integrator: not a C19 finding
+                    unchecked_length = 'type 6 must have length' in swhy   # Boolean.read ignores its length field
+                    if not sok and out[0] == 'return' and (overrun or (
+                            unchecked_length and
+                            D.outcome_coq(out) == D.outcome_coq(scripted_call(op, version, kwargs, items=base_items)[0]))):
+                        # A flipped LENGTH field (the last structure claims more bytes than the message holds: BytearrayStream.read
+                        # hands over what is there; or a Boolean's length field, which Boolean.read does not look at) and the decode
+                        # goes through with every value intact: the outcome equals that of the uncorrupted answer.
                         # Observed on the unchanged tree, counted, not demanded by this check (lenient structure lengths are
                         # the codec's business: C01/C02); the data returned is exactly the data carried.
                         ctx.count('pie.mangled-%s.length-overrun-tolerated.return' % mlabel)
@@ -977,6 +991,83 @@ def optional_field_cases(ctx, quick):
     return cases, meta
 
 
+# ---------------------------------------------------------------------- the client as a context manager
+def with_block_cases(ctx, quick):
+    """Every method inside `with ProxyKmipClient(...) as client:` (real open()/close()/__enter__/__exit__; only the TLS
+    wrapping of the socket is replaced).  The expectation is evaluated OUTSIDE the block: what arrives there must be exactly
+    what the same call does without the block - in particular an exception raised inside must propagate unchanged."""
+    rng = ctx.subrng('withblock')
+    cases, meta = [], []
+    for op in D.OPS:
+        for version in D.VERSIONS:
+            if op.min_version is not None and version < op.min_version:
+                continue
+            for attempt in range(8):
+                kwargs = op.args(rng, version)
+                _, _, probe = scripted_call(op, version, kwargs, items=[Item(RS.OPERATION_FAILED, RR.GENERAL_FAILURE, 'probe')])
+                if probe.sent:
+                    break
+            answers = [('success', dict(items=[Item(RS.SUCCESS, payload=op.payload(rng, version))])),
+                       ('failure', dict(items=[Item(RS.OPERATION_FAILED, rng.choice(list(RR)), D.gen_text(rng, 1, 20))])),
+                       ('request-failure', dict(items=[Item(RS.OPERATION_FAILED, RR.AUTHENTICATION_NOT_SUCCESSFUL, D.gen_text(rng, 1, 20), op=None, hv=(1, 0))])),
+                       ('undecodable', dict(items=[Item(RS.SUCCESS, payload=op.payload(rng, version))], mangle=mangles(rng)[0][1])),
+                       ('truncated', None)]
+            for label, spec in answers:
+                if spec is None:
+                    frame = D.build_response(version, op.code, [Item(RS.SUCCESS, payload=op.payload(rng, version))])
+                    spec = dict(raw=frame, plan=('truncate', rng.randrange(1, len(frame))))
+                direct, resp, sock0 = scripted_call(op, version, kwargs, **spec)
+                if not sock0.sent:
+                    continue
+                frame = resp.response_bytes
+                plan = spec.get('plan', ('whole',))
+                sock = D.ChunkSock(D.Scripted(version, raw=frame, plan=plan))
+                out, notes = D.run_call_in_with_block(version, sock, lambda c: D.call_pie(c, op, kwargs))
+                same = D.outcome_coq(out) == D.outcome_coq(direct)
+                ctx.count('withblock.%s.%s' % (label, 'same-as-direct-call' if same and not notes else 'DIFFERS'))
+                ctx.case_seen(('with', op.name, version.name, label, frame), nontrivial=True)
+                if notes or not same:
+                    w = {'client': 'ProxyKmipClient', 'method': op.name, 'arguments': repr(kwargs)[:400], 'kmip_version': version.name,
+                         'usage': 'with ProxyKmipClient(...) as client: client.%s(...)' % op.name, 'answer': label,
+                         'response_hex': frame.hex(), 'chunking': repr(plan), 'outside_the_with_block': D.outcome_plain(out),
+                         'same_call_without_with': D.outcome_plain(direct), 'context_manager': notes}
+                    ctx.violation({'client': 'pie', 'op': op.name, 'what': 'with-block-changes-outcome', 'answer': label,
+                                   'how': (notes[0].split(':')[0] if notes else 'differs')}, w,
+                                  'with ProxyKmipClient(...) as client: client.%s(...) - %s' % (
+                                      op.name, notes[0] if notes else 'the outcome outside the block differs from the direct call'))
+                if label in ('truncated',):
+                    abstract = 'trunc'
+                m = D.decode_response(version, frame) if label != 'truncated' else None
+                abstract = [D.ritem_of_batch_item(bi) for bi in m.batch_items] if m is not None else None
+                cases.append('(CPie %s %s %s)' % (op.model, D.resp_coq(abstract), D.outcome_coq(out)))
+                meta.append((op.name, version.name, label, D.outcome_plain(out), notes))
+    # the context-manager protocol itself: return values must not alter control flow
+    for version in D.VERSIONS:
+        sock = D.ChunkSock(None)
+        cl = D.make_closed_client(version, sock)
+        r_open = cl.open()
+        ent = cl.__enter__() if False else None
+        exc = ValueError('x')
+        r_exit = cl.__exit__(ValueError, exc, None)
+        facts = {'open() returned': repr(r_open), '__exit__(exc...) returned': repr(r_exit), 'open after __exit__': cl._is_open}
+        ctx.count('withblock.protocol.%s' % ('ok' if not r_exit and not cl._is_open else 'ANOMALY'))
+        if r_exit:
+            ctx.violation({'client': 'pie', 'what': 'with-block-changes-outcome', 'how': '__exit__ returns a true value'},
+                          {'kmip_version': version.name, 'facts': facts},
+                          'ProxyKmipClient.__exit__ returned %r for a pending exception: the with statement would discard it' % (r_exit,))
+    px = D.make_closed_client(D.VERSIONS[2], D.ChunkSock(None)).proxy
+    ctx.count('withblock.KMIPProxy.context-manager.%s' % ('supported' if hasattr(px, '__enter__') and hasattr(px, '__exit__') else 'not-supported'))
+    if hasattr(px, '__enter__') and hasattr(px, '__exit__'):
+        try:
+            r = type(px).__exit__(px, ValueError, ValueError('x'), None)
+        except Exception:
+            r = None
+        if r:
+            ctx.violation({'client': 'proxy', 'what': 'with-block-changes-outcome', 'how': '__exit__ returns a true value'}, {'returned': repr(r)},
+                          'KMIPProxy.__exit__ returned a true value for a pending exception')
+    return cases, meta
+
+
 # ---------------------------------------------------------------------- request envelope
 class _KVer(dict):
     def __missing__(self, version):        # built on first use: nothing at import time depends on the code under test
@@ -1092,6 +1183,12 @@ def s_optfields(ctx, quick):
             what='Client.interpret vs ProxyKmipClient on legal answers carrying optional Response Header / Batch Item fields')
 
 
+def s_withblock(ctx, quick):
+    cases, meta = with_block_cases(ctx, quick)
+    compare(ctx, 'withblock', cases, meta,
+            what='Client.interpret vs what arrives OUTSIDE `with ProxyKmipClient(...) as client: client.<method>(...)`')
+
+
 def s_requests(ctx, quick):
     cases, meta = request_cases(ctx, quick)
     compare(ctx, 'requests', cases, [m[:2] for m in meta], shard=40,
@@ -1124,7 +1221,7 @@ def s_switch(ctx, quick):
 
 
 STREAMS = [('pie', s_pie), ('framing', s_framing), ('calls', s_calls), ('proxy', s_proxy), ('valuebytes', s_valuebytes),
-           ('optfields', s_optfields), ('requests', s_requests), ('argmenus', s_argmenus), ('server', s_server), ('switch', s_switch)]
+           ('optfields', s_optfields), ('withblock', s_withblock), ('requests', s_requests), ('argmenus', s_argmenus), ('server', s_server), ('switch', s_switch)]
 
 
 def guarded(ctx, name, fn, *a):
